@@ -432,6 +432,8 @@ pub struct Built {
     pub ctl: Arc<Ctl>,
     /// for a top-level altroot: the root of the filesystem it is rooted in (through the wrappers)
     pub alt_underlying: Option<VfsPath>,
+    /// the first MemoryFS instance of the stack (for calls on the `FileSystem` trait itself)
+    pub mem_fs: Option<SharedFs>,
     _scratch: Vec<Scratch>,
 }
 
@@ -470,6 +472,7 @@ pub fn dump_line_is_below(line: &str, p: &str) -> bool {
 }
 
 struct Builder {
+    mem_fs: Option<SharedFs>,
     alt_underlying: Option<VfsPath>,
     ctl: Arc<Ctl>,
     bases: Vec<Base>,
@@ -484,6 +487,9 @@ impl Builder {
         let fs: Box<dyn FileSystem> = match cfg {
             Cfg::Mem => {
                 let shared = SharedFs(Arc::new(MemoryFS::new()));
+                if self.mem_fs.is_none() {
+                    self.mem_fs = Some(shared.clone());
+                }
                 self.bases.push(Base {
                     label: format!("Mem@{}", id),
                     node: id.to_string(),
@@ -575,6 +581,7 @@ pub fn build(cfg: &Cfg, order: Order, init: &Init) -> Built {
 pub fn build_opts(cfg: &Cfg, order: Order, init: &Init, sentinels: bool) -> Built {
     let ctl = Ctl::new(order);
     let mut b = Builder {
+        mem_fs: None,
         alt_underlying: None,
         ctl: ctl.clone(),
         bases: vec![],
@@ -588,6 +595,7 @@ pub fn build_opts(cfg: &Cfg, order: Order, init: &Init, sentinels: bool) -> Buil
         bases: b.bases,
         ctl,
         alt_underlying: b.alt_underlying,
+        mem_fs: b.mem_fs,
         _scratch: b.scratch,
     };
     for (bi, entries) in init {
